@@ -676,15 +676,19 @@ class PartialRBF(DiffRBF):
         return super(PartialRBF, self).__call__(X, Y, eval_gradient)
 
     def k_and_deriv(self, X, Y=None):
+        # Evaluate on the active columns only (RBF.__call__, so that they are not
+        # sliced a second time) and scatter the gradient into all columns of X.
         if self.active_dims is None:
-            X = X[:, self.start :]
-            if Y is not None:
-                Y = Y[:, self.start :]
+            dims = np.arange(X.shape[1])[self.start :]
         else:
-            X = X[:, self.active_dims]
-            if Y is not None:
-                Y = Y[:, self.active_dims]
-        return super(PartialRBF, self).k_and_deriv(X, Y)
+            dims = np.arange(X.shape[1])[self.active_dims]
+        XA = X[:, dims]
+        YA = XA if Y is None else Y[:, dims]
+        k = super(PartialRBF, self).__call__(XA, YA)
+        dk = np.zeros(k.shape + (X.shape[1],))
+        dk[:, :, dims] = k[:, :, None] * (YA[None, :, :] - XA[:, None, :])
+        dk[:, :, dims] /= self.length_scale**2
+        return k, dk
 
 
 class DiffARBF(DiffRBF):
